@@ -353,6 +353,11 @@ def _gen(rng, kinds, d, o):
     if d == 0 or rng.random() < o["p_leaf"]:
         return gen_leaf(rng, kinds, o)
     k = rng.random()
+    if o["preds"] and o["calls"] and rng.random() < 0.04:
+        # one @predicate function applied to two different attribute VALUES of one variable, the other argument alike
+        vi = rng.randrange(len(kinds))
+        k_ = ["lit", rng.randint(1, 3)]
+        return [rng.choice(["and", "or"]), ["fpred", "f_vge", [["v", vi, [["a", "a"]]], k_]], ["fpred", "f_vge", [["v", vi, [["a", "b"]]], k_]]]
     if o["neg"] and k < o["p_not"]:
         return [rng.choice(["not", "~"]) if o["spell"] else "not", _gen(rng, kinds, d - 1, o)]
     conj = rng.random() < 0.5
